@@ -922,6 +922,23 @@ def allclose(a, b, rtol=1e-05, atol=1e-08, equal_nan=False):
     return all_(elementwise(close, a, b))
 
 
+def isclose(a, b, rtol=1e-05, atol=1e-08, equal_nan=False):
+    if not has_sym([a, b]):
+        return plain_call(rnp.isclose, a, b, rtol=rtol, atol=atol, equal_nan=equal_nan)
+
+    def close(x, y):
+        x, y = sym.as_xr(x), sym.as_xr(y)
+        fin = sym.b_and(x.fin(), y.fin())
+        d = abs(x - y)
+        bound = sym.as_xr(atol) + sym.as_xr(rtol) * abs(y)
+        c = sym.b_or(sym.b_and(fin, sym.x_le(d, bound)), sym.b_and(sym.b_not(fin), sym.x_eq(x, y)))
+        if equal_nan:
+            c = sym.b_or(c, sym.b_and(x.nan, y.nan))
+        return sym.mk_bool(c)
+
+    return elementwise(close, a, b, sdtype=rnp.bool_)
+
+
 def argsort(a, axis=-1, kind=None, **kw):
     """Ascending argsort, NaN last.  Symbolic: a vector of fresh integers constrained to be a sorting
     permutation (ties: any order - NumPy's default sort is not stable)."""
@@ -1047,7 +1064,7 @@ class _Shim:
             array=array, asarray=asarray, asanyarray=asarray, zeros=zeros, ones=ones, empty=empty, full=full, arange=arange, eye=eye,
             zeros_like=zeros_like, ones_like=ones_like, empty_like=empty_like,
             where=where_, nan_to_num=nan_to_num, sum=sum_, any=any_, all=all_, count_nonzero=count_nonzero,
-            dot=dot, matmul=matmul, abs=abs_, clip=clip, allclose=allclose, argsort=argsort, argmin=argmin, cumsum=cumsum,
+            dot=dot, matmul=matmul, abs=abs_, clip=clip, allclose=allclose, isclose=isclose, argsort=argsort, argmin=argmin, cumsum=cumsum,
             linalg=_Linalg(), ndarray=rnp.ndarray,
         )
         for n in ("add", "subtract", "multiply", "true_divide", "divide", "negative", "absolute", "fabs", "power", "square", "sqrt",
